@@ -1,7 +1,7 @@
 import MakoModel.Basic.Wire
 import MakoModel.Cache.Model
 /-!
-Driver handler for the cache model: `cache run <passContext 0|1> <regionKey> <nT> <tmpl>… <nOps> <op>…`
+Driver handler for the cache model: `cache run <passContext 0|1> <honoursStarttime 0|1> <regionKey> <nT> <tmpl>… <nOps> <op>…`
 
 All tokens are separated by single spaces; `str` is the wire encoding of a string.
 
@@ -11,7 +11,7 @@ kw    := n (key:str argv)*            argv := s str | i nat | c
 hdr   := kind:0..4 name:str line:nat (N | P str) cached buffered filtered nattrs (attr:str expr)*
 expr  := n (L str | X str)*           (literal / variable)
 items := ( T str | V str | K str | I hdr (N | A expr) site:0|1 items )* E
-op    := R t env | B t | D t str | C t str | X t key:str kw | S t key:str val:str kw | G t key:str kw | N t 0|1
+op    := R t env | B t | D t str | C t str | X t key:str kw | S t key:str val:str kw | G t key:str kw | N t 0|1 | P t
 env   := n (name:str val:str)*
 ```
 kinds: 0 page, 1 top-level def, 2 nested def, 3 named block, 4 anonymous block.  The back end's region
@@ -149,6 +149,7 @@ def pOp : P Op
     let (t, ts) ← pNat ts; let (k, ts) ← pStr ts; let (kw, ts) ← pKw ts
     pure (.get t k kw, ts)
   | "N" :: ts => do let (t, ts) ← pNat ts; let (b, ts) ← pBool ts; pure (.setEnabled t b, ts)
+  | "P" :: ts => do let (t, ts) ← pNat ts; pure (.compile t, ts)
   | _ => none
 
 /-! canonical output -/
@@ -213,11 +214,12 @@ def runSteps (w : World Reg) : St Reg → List Op → List String
 def handle : Handler
   | "run" :: ts => do
     let (pass, ts) ← pBool ts
+    let (start, ts) ← pBool ts
     let (rk, ts) ← pStr ts
     let (tmpls, ts) ← pList pTmpl ts
     let (ops, ts) ← pList pOp ts
     if !ts.isEmpty then none else
-    let w : World Reg := { be := { regionOf := fun kw => aGet kw rk, passContext := pass }, tmpls := tmpls }
+    let w : World Reg := { be := { regionOf := fun kw => aGet kw rk, passContext := pass, honoursStarttime := start }, tmpls := tmpls }
     pure (" | ".intercalate (runSteps w (St.init w) ops))
   | ["moduleid", u] => do let u ← decStr u; pure (encStr (moduleId u))
   | ["fname", kind, name, line] => do
